@@ -1142,7 +1142,7 @@ func (si *SexpHashSelector) SexpString(ps *PrintState) string {
 
 // Type returns the type of the value.
 func (si *SexpHashSelector) Type() *RegisteredType {
-	return GoStructRegistry.Lookup("hashSelector")
+	return GoStructRegistry.Builtin["hashSelector"]
 }
 
 // RHS applies the selector to the contain and returns
